@@ -92,3 +92,16 @@ Definition check (c : case) : option verdict :=
        end.
 
 Definition mismatches (l : list case) := mism_from check 0 l.
+
+(* ---------------------------------------------------------------- the argument list of `go build` *)
+Record ccase := { cc_out : string; cc_ldflags : string; cc_entries : list string;    (* raw directory listing *)
+                  cc_magefiles : list string;                                          (* the files that are magefiles *)
+                  cc_argv : list string }.                                             (* observed *)
+
+Definition ccheck (c : ccase) : option (list string) :=
+  let sel := fun s => existsb (String.eqb s) (cc_magefiles c) in
+  let m := compile_args (cc_out c) (cc_ldflags c) sel (cc_entries c) in
+  let m' := compile_args (cc_out c) (cc_ldflags c) sel (rev (cc_entries c)) in
+  if list_eqb String.eqb m (cc_argv c) && list_eqb String.eqb m' (cc_argv c) then None else Some m.
+
+Definition cmismatches (l : list ccase) := mism_from ccheck 0 l.
